@@ -43,6 +43,9 @@ class Chooser:
         return sum(1 for _, c, _ in self.trace if c)
 
 
+from . import core as _core  # noqa: E402  (watchdog)
+
+
 def explore(body, bound=None, max_runs=None, cost=None, root=None, root_only_after=None):
     """
     Yield (choices, deviations, observation) for every execution.
@@ -55,7 +58,9 @@ def explore(body, bound=None, max_runs=None, cost=None, root=None, root_only_aft
     while stack:
         prefix, devs = stack.pop()
         ch = Chooser(prefix)
-        obs = body(ch)
+        # every execution of the real code runs under a wall-clock backstop (code under test that
+        # spins for ever must lead to a verdict); cold executions fork and may take a little longer
+        obs = _core.watchdog(_core.CASE_LIMIT_S, body, ch)
         runs += 1
         trace = ch.trace
         if len(trace) < len(prefix):
